@@ -9,7 +9,9 @@ EXTRA = {  # seed -> properties to run besides the one in its name
     "REVERT_frozenset": ["C08", "C06"], "REVERT_sharedmem": ["C17"], "REVERT_dispatch_new_callid": ["C04"],
     "REVERT_callid_window": ["C04"], "REVERT_hash_partial_order": ["C08"], "REVERT_inmemory_shortcut": ["C12"],
     "REVERT_code_id_refresh": ["C12"], "REVERT_func_code_race": ["C11"], "REVERT_mkdirp_race": ["C11"],
-    "REVERT_memmap_views": ["C19"], "C02_A": ["C02", "C07"], "C06_A": ["C06", "C07"], "C15_B": ["C15", "C10"],
+    "REVERT_memmap_views": ["C19"], "REVERT_torn_multibyte": ["C05"], "REVERT_pre_dispatch_zero": ["C01"],
+    "REVERT_sequential_verbose": ["C04"], "REVERT_predispatch_all_error": ["C04"], "REVERT_setup_failure_running": ["C04"],
+    "REVERT_mkdirp_two_clears": ["C11"], "C02_A": ["C02", "C07"], "C06_A": ["C06", "C07"], "C15_B": ["C15", "C10"],
 }
 only = sys.argv[1:] 
 res_path = os.path.join(ROOT, "seeded", "RESULTS.json")
